@@ -11,8 +11,13 @@ from . import filegen, timesgen
 from .filegen import FMT, ydm_to_ms
 
 OPS = ["getTimes", "getLonLat", "getMask", "getQualFlags", "getCounts", "getTelemetry", "dataset", "calibrated",
-       "angles", "readMeta", "save"]
-COORD_OPS = {"getLonLat", "dataset", "calibrated", "angles", "save"}
+       "angles", "readMeta", "save", "saveFrom2"]
+COORD_OPS = {"getLonLat", "dataset", "calibrated", "angles", "save", "saveFrom2"}
+
+
+def model_op(op):
+    """name of the operation in the Lean state machine (save with any start line is `save`)"""
+    return "save" if op.startswith("save") else op
 
 
 def dig(*arrays):
@@ -146,8 +151,9 @@ def perform(r, op):
         return ("angles", dig(*r.get_angles()))
     if op == "readMeta":
         return ("meta", meta_view(r.meta_data))
-    if op == "save":
-        # legacy HDF5 output of the whole pass; the value is the content of the three files
+    if op.startswith("save"):
+        start_line = int(op[8:]) if op != "save" else 0
+        # legacy HDF5 output of the pass from `start_line`; the value is the content of the three files
         import glob
         import shutil
         import tempfile
@@ -157,13 +163,16 @@ def perform(r, op):
         try:
             with warnings.catch_warnings():
                 warnings.simplefilter("ignore")
-                r.save(0, 0, output_file_prefix="V", output_dir=out)
+                r.save(start_line, 0, output_file_prefix="V", output_dir=out)
             parts = []
             for kind in ("avhrr", "sunsatangles", "qualflags"):
                 with h5py.File(glob.glob(os.path.join(out, "V_%s_*.h5" % kind))[0], "r") as f:
                     names = []
                     f.visit(lambda n: names.append(n) if isinstance(f[n], h5py.Dataset) else None)
                     parts.append(dig(*[f[n][...] for n in sorted(names) if f[n].dtype.kind in "iuf"]))
+                    if kind == "qualflags":
+                        mid = f["/ancillary"].attrs["midnight_scanline"]
+                        parts.append(mid.decode() if isinstance(mid, bytes) else str(mid))
             return ("saved", tuple(parts))
         finally:
             shutil.rmtree(out, ignore_errors=True)
